@@ -779,6 +779,9 @@ def main(ck):
                               "series_with_a_multi_segment_chunk_lacking_a_column": len(col_nontriv),
                               "series_split_over_several_files_compared_with_limit_model": len([1 for a, b in colmod if a.get("seglimit") and len(b.get("out") or []) > 1]),
                               "merged_series_compared_with_merge_model": len(mergemod), "merge_model_mismatches": len(mmism),
+                              "process_deaths": len([c for c in cols if c.get("died")]),
+                              "process_deaths_repeated_when_the_operation_was_retried_after_restart":
+                                  len([c for c in cols if (c.get("again") or "").startswith("died again")]),
                               "model_mismatches": len(colmism), "series_matching_counter_padding_only": col_current,
                               "known_finding_failures": col_known,
                               "process_deaths_inside_known_finding_signature": col_died_known}
